@@ -60,6 +60,16 @@ def FreshRun : State → List Op → Prop
   | _, [] => True
   | s, op :: t => IdFresh s op ∧ FreshRun (apply s op) t
 
+/-- executable forms (used for the non-vacuity evaluation and usable by a monitor) -/
+def idFreshB (s : State) : Op → Bool
+  | .issueDenom _ _ _ => !(AMap.keys s.denoms).contains (genId "mt-denom-" s.denomSeq)
+  | .mint _ d id _ _ _ => id != "" || !(AMap.keys s.mts).contains (d, genId "mt-" s.mtSeq)
+  | _ => true
+
+def freshRunB : State → List Op → Bool
+  | _, [] => true
+  | s, op :: t => idFreshB s op && freshRunB (apply s op) t
+
 /-- the round-trip statement of C12 for one MT store -/
 def RoundTrip (s : State) : Prop :=
   validateGenesis (exportGenesis s) = .ok () ∧
